@@ -499,16 +499,16 @@ Proof.
 Qed.
 
 (* ---------- diagonal index: the code's fill loop is "place the two diagonal coordinates, copy the rest" ---------- *)
-Lemma diag_fill_place a1 a2 d off : a1 <> a2 -> 0 <= off -> forall axes rest,
+Lemma diag_fill_place a1 a2 d off : a1 <> a2 -> forall axes rest,
   diag_fill axes a1 a2 rest d off = place_from axes [a1; a2] rest [d + Z.max 0 (- off); d + Z.max 0 off].
 Proof.
-  intros Hne Hoff. induction axes as [|t axes IH]; intros rest; [reflexivity|].
+  intros Hne. induction axes as [|t axes IH]; intros rest; [reflexivity|].
   cbn [diag_fill place_from index_of].
   destruct (Nat.eqb_spec t a2) as [E2|N2].
   - subst t. destruct (Nat.eqb_spec a2 a1) as [E|_]; [congruence|].
-    cbn [option_map nth]. rewrite IH. f_equal. lia.
+    cbn [option_map nth]. rewrite IH. f_equal. destruct (Z.ltb_spec 0 off); lia.
   - destruct (Nat.eqb_spec t a1) as [E1|N1].
-    + cbn [nth]. rewrite IH. f_equal. lia.
+    + cbn [nth]. rewrite IH. f_equal. destruct (Z.ltb_spec off 0); lia.
     + cbn [option_map]. destruct rest as [|x rest]; rewrite IH; reflexivity.
 Qed.
 
@@ -518,13 +518,12 @@ Proof.
   cbn [existsb]. now rewrite orb_false_r.
 Qed.
 
-Lemma diag_extent_np s off a1 a2 : 0 <= off -> 0 <= diag_extent s off a1 a2 ->
-  diag_extent s off a1 a2 = np_diag_len s off a1 a2.
+Lemma diag_extent_np s off a1 a2 : diag_extent s off a1 a2 = np_diag_len s off a1 a2.
 Proof.
-  unfold diag_extent, np_diag_len. intros Hoff.
-  replace (off <? 0) with false by (symmetry; apply Z.ltb_ge; lia).
-  replace (0 <=? off) with true by (symmetry; apply Z.leb_le; lia).
-  destruct (Z.ltb_spec 0 off); lia.
+  unfold diag_extent, np_diag_len. cbv zeta.
+  destruct (Z.ltb_spec off 0); destruct (Z.ltb_spec 0 off); destruct (Z.leb_spec 0 off); try lia;
+    match goal with |- (if ?c then _ else _) = _ => destruct c eqn:E end;
+    try (apply Z.ltb_lt in E); try (apply Z.ltb_ge in E); lia.
 Qed.
 
 Lemma norm_axis_nat n a : (a < n)%nat -> norm_axis n (Z.of_nat a) = Some a.
@@ -798,14 +797,13 @@ Proof.
     apply inb_snoc; assumption.
 Qed.
 
-(* ---------- diagonal / trace (offset >= 0) ---------- *)
+(* ---------- diagonal / trace, any offset ---------- *)
 Theorem diagonal_spec s f off ax1 ax2 a1 a2 v :
   norm_axis (length s) ax1 = Some a1 -> norm_axis (length s) ax2 = Some a2 ->
-  0 <= off -> 0 <= diag_extent s off a1 a2 ->
   np_diagonal A s f off a1 a2 = Some v ->
   exists m, diagonal A s f off ax1 ax2 = Ok m /\ agrees m v.
 Proof.
-  intros N1 N2 Hoff He H. unfold np_diagonal in H.
+  intros N1 N2 H. unfold np_diagonal in H.
   destruct (np_diagonal_shape s off a1 a2) as [d|] eqn:Ed; [|discriminate]. injection H as <-.
   unfold np_diagonal_shape in Ed.
   destruct ((a1 <? length s)%nat && (a2 <? length s)%nat && negb (a1 =? a2)%nat) eqn:C; [|discriminate].
@@ -815,40 +813,33 @@ Proof.
   unfold diagonal. rewrite N1, N2.
   replace (length s <? 2)%nat with false by (symmetry; apply Nat.ltb_ge; lia).
   replace (a1 =? a2)%nat with false by (symmetry; now apply Nat.eqb_neq).
-  replace (diag_extent s off a1 a2 <? 0) with false by (symmetry; apply Z.ltb_ge; lia).
-  replace (off <? 0) with false by (symmetry; apply Z.ltb_ge; lia).
-  cbn [orb andb]. eexists. split; [reflexivity|]. split; cbn [vshape vat].
-  - unfold shape_diagonal. rewrite remove_axes_free, diag_extent_np by assumption. reflexivity.
+  cbn [orb]. eexists. split; [reflexivity|]. split; cbn [vshape vat].
+  - unfold shape_diagonal. rewrite remove_axes_free, diag_extent_np. reflexivity.
   - intros i _. unfold diagonal_idx, np_diagonal_idx, place. now rewrite diag_fill_place.
 Qed.
 
 Theorem trace_spec s f off ax1 ax2 a1 a2 v :
   norm_axis (length s) ax1 = Some a1 -> norm_axis (length s) ax2 = Some a2 ->
-  0 <= off -> 1 <= diag_extent s off a1 a2 ->
+  1 <= np_diag_len s off a1 a2 ->
   np_trace A zero add s f off a1 a2 = Some v ->
   exists m, trace A zero add s f off ax1 ax2 = Ok m /\ agrees m v.
 Proof.
-  intros N1 N2 Hoff He H. unfold np_trace in H.
+  intros N1 N2 He H. unfold np_trace in H.
   destruct (np_diagonal_shape s off a1 a2) as [d|] eqn:Ed; [|discriminate]. injection H as <-.
-  destruct (diagonal_spec s f off ax1 ax2 a1 a2 _ N1 N2 Hoff ltac:(lia) ltac:(unfold np_diagonal; rewrite Ed; reflexivity))
+  destruct (diagonal_spec s f off ax1 ax2 a1 a2 _ N1 N2 ltac:(unfold np_diagonal; rewrite Ed; reflexivity))
     as [m [Em [Sm Fm]]].
   unfold trace. rewrite Em. cbn [rbind]. cbn [vshape vat] in Sm, Fm.
   unfold np_diagonal_shape in Ed.
   destruct ((a1 <? length s)%nat && (a2 <? length s)%nat && negb (a1 =? a2)%nat) eqn:C; [|discriminate].
   injection Ed as <-. rewrite Sm, atneg_app1.
-  rewrite <- diag_extent_np by lia.
-  replace (diag_extent s off a1 a2 <=? 0) with false by (symmetry; apply Z.leb_gt; lia).
+  replace (np_diag_len s off a1 a2 <=? 0) with false by (symmetry; apply Z.leb_gt; lia).
   eexists. split; [reflexivity|].
-  rewrite <- diag_extent_np in Sm by lia.
   destruct (v_sum_last1_spec A zero add add_assoc add_0_r m _ _ Sm) as [S1 F1].
   split; cbn [vshape vat].
   - rewrite S1. now rewrite removelast_snoc.
   - intros i _. rewrite F1. f_equal. apply map_ext_in. intros k Hk.
-    (* the diagonal view's element does not depend on bounds *)
     unfold diagonal in Em. rewrite N1, N2 in Em.
     destruct ((length s <? 2)%nat || (a1 =? a2)%nat); [discriminate|].
-    destruct (diag_extent s off a1 a2 <? 0); [discriminate|].
-    destruct ((off <? 0) && (0 <? diag_extent s off a1 a2)); [discriminate|].
     injection Em as <-. cbn [vat].
     apply andb_prop in C as [_ C3]. apply negb_true_iff, Nat.eqb_neq in C3.
     unfold diagonal_idx, np_diagonal_idx, place. rewrite removelast_snoc, last_last.
